@@ -74,7 +74,12 @@ def run(entries, target_method="GetBook"):
         if p is not None:
             e["retryPolicy"] = p
         cfg["methodConfig"].append(e)
-    me = NS(opts=NS(retry=cfg), _to_float=to_float)
+    # a real _ProtoBuilder instance (created without running __init__), so that class-level state exists; one builder
+    # serves every service of a proto file: another service of the file asks first, then the target
+    me = object.__new__(api_mod._ProtoBuilder)
+    me.opts = NS(retry=cfg)
+    me._to_float = to_float
+    FUNC(me, NS(package=("google", "example", "rt", "v1"), name="Other"), NS(name="GetBook"))
     addr = NS(package=("google", "example", "rt", "v1"), name="Library")
     retry, timeout = FUNC(me, addr, NS(name=target_method))
     # ---- oracle
